@@ -65,6 +65,7 @@ func init() {
 			return 130
 		},
 		CaseTimeout: 6 * time.Minute,
+		MaxWorkers:  10,
 		Run:         runC09,
 		Finalize: func(a *vrt.Agg) error {
 			if a.Counters["programs_where_configs_differ_structurally"] == 0 {
@@ -183,6 +184,11 @@ func runC09(cs *vrt.Case) {
 		op := ops[k%len(ops)]
 		ws := []int{1, 2, 3, 4, 5, 6, 7, 8, 9, 10, 11, 12, 13, 14, 15, 17, 18, 23, 24, 25, 31, 33, 34, 47, 63, 65, 66, 96, 127, 129}
 		w := ws[(k/len(ops)+k)%len(ws)]
+		if (strings.Contains(op, "/") || strings.Contains(op, "%")) && w > 34 {
+			// the GMW (Goldschmidt) divider grows to gigabytes of gates
+			// beyond this; the builder itself is C07's subject at all widths
+			w = []int{17, 18, 23, 24, 25, 31, 33, 34}[k%8]
+		}
 		ty := "uint"
 		if (k/3)%2 == 1 {
 			ty = "int"
@@ -283,6 +289,18 @@ func runC09(cs *vrt.Case) {
 		want = outs[0]
 	}
 	hasDiv := strings.Contains(src, " / ") || strings.Contains(src, " % ")
+	if prog != nil {
+		// the property relates the configurations to each other; whether the
+		// default configuration implements the program is C03's question
+		// (and C03's known findings): compare against the baseline then
+		for k := range vecs {
+			if outs[0][k].Cmp(want[k]) != 0 {
+				cs.Count("programs_whose_baseline_differs_from_the_interpreter_C03s_business", 1)
+				want = outs[0]
+				break
+			}
+		}
+	}
 	for i := range circs {
 		for k := range vecs {
 			cs.Evals++
